@@ -336,7 +336,22 @@ type c54Rule struct {
 	Cmd       string
 	Quality   int
 	FlushSize int
+	// optional-looking members left out of the rule file; such a file is only in the domain
+	// if the module's loader accepts it
+	OmitQuality   bool
+	OmitFlushSize bool
 }
+
+func c54Omits(rules []c54Rule) bool {
+	for _, r := range rules {
+		if r.OmitQuality || r.OmitFlushSize {
+			return true
+		}
+	}
+	return false
+}
+
+var errC54Refused = fmt.Errorf("rule file with omitted members refused by the loader")
 
 type c54World struct {
 	rig *sys.Rig
@@ -442,7 +457,14 @@ func (w *c54World) load(rules []c54Rule) (string, error) {
 	w.n++
 	var rs []map[string]any
 	for _, r := range rules {
-		rs = append(rs, map[string]any{"Cond": r.Cond, "Action": map[string]any{"Cmd": r.Cmd, "Quality": r.Quality, "FlushSize": r.FlushSize}})
+		act := map[string]any{"Cmd": r.Cmd}
+		if !r.OmitQuality {
+			act["Quality"] = r.Quality
+		}
+		if !r.OmitFlushSize {
+			act["FlushSize"] = r.FlushSize
+		}
+		rs = append(rs, map[string]any{"Cond": r.Cond, "Action": act})
 	}
 	cfg := map[string]any{"Version": fmt.Sprint(w.n), "Config": map[string]any{"pc": rs}}
 	bs, _ := json.Marshal(cfg)
@@ -450,7 +472,16 @@ func (w *c54World) load(rules []c54Rule) (string, error) {
 	if err := os.WriteFile(p, bs, 0o644); err != nil {
 		return string(bs), err
 	}
-	return string(bs), w.rig.ReloadModule("mod_compress", p)
+	var err error
+	pv := ev.Try(func() { err = w.rig.ReloadModule("mod_compress", p) })
+	if c54Omits(rules) && (pv != nil || err != nil) {
+		// refused (by an error or by a panic of the loader): the previous rules stay in force
+		return string(bs), errC54Refused
+	}
+	if pv != nil {
+		return string(bs), fmt.Errorf("loader panicked: %v", pv)
+	}
+	return string(bs), err
 }
 
 func c54GenAction(rt *rapid.T, label string) c54Rule {
@@ -463,6 +494,12 @@ func c54GenAction(rt *rapid.T, label string) c54Rule {
 		r.Quality = rapid.IntRange(0, 11).Draw(rt, label+"-quality")
 	}
 	r.FlushSize = rapid.SampledFrom([]int{64, 64, 65, 100, 512, 512, 1000, 4095, 4096}).Draw(rt, label+"-flush")
+	switch rapid.IntRange(0, 23).Draw(rt, label+"-omit") {
+	case 0:
+		r.OmitFlushSize = true
+	case 1:
+		r.OmitQuality = true
+	}
 	return r
 }
 
@@ -493,6 +530,10 @@ func TestC54(t *testing.T) {
 	// compressed response served through the CancelOnClientClose cluster, then all cases run concurrently.
 	burst := func(tb ev.TB, cases []*c54Case, aborts int) {
 		ruleJSON, err := w.load(cases[0].Rules)
+		if err == errC54Refused {
+			rec.Excluded("rule-file-with-omitted-member-refused")
+			return
+		}
 		if err != nil {
 			tb.Fatalf("harness: mod_compress refused generated rule file %s: %v", ruleJSON, err)
 		}
@@ -554,6 +595,16 @@ func TestC54(t *testing.T) {
 	for round := 0; round < 2; round++ {
 		for _, rule := range []c54Rule{{Cond: "default_t()", Cmd: "GZIP", Quality: 5, FlushSize: 512}, {Cond: "default_t()", Cmd: "BROTLI", Quality: 4, FlushSize: 512}, {Cond: "default_t()", Cmd: "GZIP", Quality: -1, FlushSize: 4096}} {
 			burst(t, mkBurst(rule, 9, func(i int) int { return 8000 + 7000*i }, byte(round)), round*2)
+		}
+	}
+	// rule files with members left out: either the loader refuses them or they must behave
+	for _, cmd := range []string{"GZIP", "BROTLI"} {
+		for _, om := range []int{0, 1, 2} {
+			r := c54Rule{Cond: "default_t()", Cmd: cmd, Quality: 5, FlushSize: 512, OmitFlushSize: om != 1, OmitQuality: om != 0}
+			for _, sz := range []int{0, 10, 5000} {
+				run(t, &c54Case{Rules: []c54Rule{r}, Path: "/omit", Method: "GET", Proto: "HTTP/1.1", AE: "gzip, br", HasAE: true, BodyCls: "body-compressible",
+					Script: &c54Script{Status: 200, Body: bytes.Repeat([]byte("omitted member "), sz/15+sz%2), Framing: "cl", UpCT: "text/plain"}})
+			}
 		}
 	}
 	// deterministic sweep: every Accept-Encoding spelling against both algorithms
@@ -669,6 +720,10 @@ func c54One(tb ev.TB, rec *ev.Rec, w *c54World, c *c54Case, n int, nComp *int, r
 	if ruleJSON == "" {
 		var err error
 		ruleJSON, err = w.load(c.Rules)
+		if err == errC54Refused {
+			rec.Excluded("rule-file-with-omitted-member-refused")
+			return
+		}
 		if err != nil {
 			tb.Fatalf("harness: mod_compress refused generated rule file %s: %v", ruleJSON, err)
 		}
@@ -695,6 +750,9 @@ func c54One(tb ev.TB, rec *ev.Rec, w *c54World, c *c54Case, n int, nComp *int, r
 	nt := pieces > 1 || (rule != nil && len(s.Body) > rule.FlushSize)
 	cls := []string{c.BodyCls, "framing-" + s.Framing, "method-" + c.Method, c.Proto, fmt.Sprintf("status-%d", s.Status)}
 	cls = append(cls, extraCls...)
+	if c54Omits(c.Rules) {
+		cls = append(cls, "rule-file-with-omitted-member-accepted")
+	}
 	if rule != nil {
 		cls = append(cls, "rule-"+rule.Cmd)
 	} else {
@@ -845,6 +903,11 @@ func c54One(tb ev.TB, rec *ev.Rec, w *c54World, c *c54Case, n int, nComp *int, r
 		return
 	}
 	conc := ""
+	if rule != nil && rule.OmitFlushSize {
+		conc = "-rule-without-flushsize" // discriminating feature: the loader accepted a rule file without FlushSize
+	} else if rule != nil && rule.OmitQuality {
+		conc = "-rule-without-quality"
+	}
 	if pre != nil {
 		conc = "-under-concurrency" // discriminating feature: other compressed responses were in flight
 		for _, x := range extraCls {
